@@ -33,7 +33,13 @@ def load_known():
 def finding_matches(entry, prop, ob):
     if entry.get("status") != "finding" or entry.get("property") != prop:
         return False
-    if entry.get("obligation") != ob["name"]:
+    import re
+    if "obligation_regex" in entry:
+        if not re.fullmatch(entry["obligation_regex"], ob["name"]):
+            return False
+    elif entry.get("obligation") != ob["name"]:
+        return False
+    if "witness_regex" in entry and not re.search(entry["witness_regex"], ob.get("detail") or ""):
         return False
     site = entry.get("site")
     if site and site not in (ob.get("site") or ""):
@@ -108,13 +114,24 @@ def conclude(prop, tier, seed, results, t0, a):
     spurious = []
     os.makedirs(os.path.join(ROOT, "replays"), exist_ok=True)
     for key, bad in sorted(refuted.items()):
-        ob = bad[0]
-        ent = next((e for e in known if finding_matches(e, prop, ob)), None)
-        if ent is not None:
-            lines.append(f"KNOWN-FINDING: property={prop} {ent['what']}")
-            known_reported.append({"obligation": ob["name"], "site": ob["site"],
-                                   "what": ent["what"]})
+        # every refuted path of the obligation must be covered by a listed finding; a refutation
+        # at another site or with another witness is reported as a violation
+        rest = []
+        for o in bad:
+            ent = next((e for e in known if finding_matches(e, prop, o)), None)
+            if ent is None:
+                rest.append(o)
+            else:
+                line = f"KNOWN-FINDING: property={prop} {ent['what']}"
+                if line not in lines:
+                    lines.append(line)
+                rec = {"obligation": o["name"], "site": o["site"], "what": ent["what"]}
+                if rec not in known_reported:
+                    known_reported.append(rec)
+        if not rest:
             continue
+        bad = rest
+        ob = bad[0]
         from replay import concretize
         verdict, path = concretize.replay_refutation(prop, ob, bad, ROOT)
         if verdict == "spurious":
